@@ -54,6 +54,8 @@ def ctx_value(ctx):
             out[k] = ('s', v)
         elif callable(v):
             continue
+        elif isinstance(v, (list, dict, set)):
+            continue       # mutable containers are outside the model (values are immutable there): compared directly where needed
         else:
             out[k] = ('s', repr(v))
     return tuple(sorted(out.items()))
@@ -223,6 +225,22 @@ def make_recording_evaluator(rec):
     return RecEval
 
 
+# A recording evaluator that can be pickled / deep-copied together with its interpreter (C18): a module-level class
+# whose recorder is looked up through a module-level slot at call time.
+class GlobalRec:
+    current = Recorder()
+
+
+class _RecProxy:
+    def __getattr__(self, name):
+        return getattr(GlobalRec.current, name)
+
+
+RecEvalG = make_recording_evaluator(_RecProxy())
+RecEvalG.__name__ = RecEvalG.__qualname__ = 'RecEvalG'
+RecEvalG.__module__ = __name__
+
+
 # ------------------------------------------------------------------------------------------------
 # state capture
 # ------------------------------------------------------------------------------------------------
@@ -329,15 +347,17 @@ class Scenario:
     """One monitored interpreter with its listeners, driven operation by operation."""
 
     def __init__(self, sc, ignore_contract=False, initial_context=None, props=(), n_rec=1,
-                 bound_callables=0, bound_charts=(), listener_order=None, fuel=40, plain=False):
+                 bound_callables=0, bound_charts=(), listener_order=None, fuel=40, plain=False, picklable=False):
         """plain=True: the stock Interpreter and PythonEvaluator, no recording and no probing (the harness then reads
         nothing but states and outcomes, so it cannot disturb anything the implementation may remember between calls)."""
         self.rec = Recorder()
-        self.klass = PythonEvaluator if plain else make_recording_evaluator(self.rec)
+        if picklable:
+            GlobalRec.current = self.rec
+        self.klass = PythonEvaluator if plain else (RecEvalG if picklable else make_recording_evaluator(self.rec))
         self.sc = sc
         self.clock = SimulatedClock()
         self.sel_holder = {}
-        self.interp = (Interpreter if plain else make_recording_interpreter(self.sel_holder))(
+        self.interp = (Interpreter if (plain or picklable) else make_recording_interpreter(self.sel_holder))(
             sc, evaluator_klass=self.klass, initial_context=initial_context,
             clock=self.clock, ignore_contract=ignore_contract)
         self.rec.interp_id(self.interp)   # id 0
@@ -361,17 +381,37 @@ class Scenario:
         for k, arg in specs:
             self.add_listener(k, arg)
 
+    @classmethod
+    def from_interpreter(cls, interp, fuel=40):
+        """Wrap an existing interpreter (e.g. one restored from a pickle) whose evaluator is RecEvalG or stock."""
+        self = cls.__new__(cls)
+        self.rec = Recorder()
+        self.rec.interp_id(interp)
+        self.klass = type(interp._evaluator)
+        self.sc = interp._statechart
+        self.clock = interp.clock
+        self.sel_holder = {}
+        self.interp = interp
+        self.fuel = fuel
+        self.listeners, self.logs, self.calls, self.bound, self.props = [], {}, {}, {}, {}
+        return self
+
+    def activate(self):
+        """make this scenario's recorder the one RecEvalG writes to"""
+        GlobalRec.current = self.rec
+        return self
+
     def add_listener(self, kind, arg=None):
         lid = len(self.listeners)
         if kind == 'rec':
             self.logs[lid] = []
-            def mk(l, lid, rec):
+            def mk(l, lid, rec, scn):
                 def fn(m):
                     mv = meta_value(m)
                     l.append(mv)
-                    rec.seq.append(('meta', lid, mv))
+                    rec.seq.append(('meta', lid, mv, scn.interp.time))    # ... and what the interpreter's time shows meanwhile
                 return fn
-            fn = mk(self.logs[lid], lid, self.rec)
+            fn = mk(self.logs[lid], lid, self.rec, self)
             self.interp.attach(fn)
             obj = fn
         elif kind == 'callable':
@@ -486,7 +526,8 @@ class Scenario:
             seq = [None if x[0] == 'call' else x[2] for x in self.rec.seq[q0:]
                    if (x[0] == 'call' and x[1] == 0) or (x[0] == 'meta' and x[1] == first)]
         return dict(op=op, pre=pre, wpre=wpre, out=out, post=post, wpost=wpost, calls=calls,
-                    selected=self.sel_holder.get('selected'), seq=seq)
+                    selected=self.sel_holder.get('selected'), seq=seq,
+                    listener_times=sorted({x[3] for x in self.rec.seq[q0:] if x[0] == 'meta'}))
 
 
 def macro_value(interp, m):
